@@ -258,6 +258,28 @@ def finish(res, claim, t_start, extra_cov=None):
     os.makedirs(EVIDENCE, exist_ok=True)
     viol_lines = []
     nviol = 0
+    # ---- replay counterexamples of failed ring obligations on the real code (one cargo test run for all of them)
+    todo = [o for o in res.obligations if o["status"] == "failed" and o.get("cex") and o.get("recipe")
+            and (res.pid, o["id"]) not in known_ids]
+    if todo and os.environ.get("VERIF_NO_REPLAY") != "1":
+        from . import replay as rp
+        srcs = {}
+        for o in todo:
+            t = rp.gen_test(o["recipe"], o["cex"], o["id"])
+            if t:
+                srcs[o["id"]] = t
+        if srcs:
+            try:
+                st, log = rp.run_replay("\n".join(srcs.values()))
+            except Exception as e:
+                st, log = "error", str(e)
+            for o in todo:
+                if o["id"] in srcs:
+                    name = "replay_" + re.sub(r"\W", "_", o["id"])
+                    reproduced = re.search(name + r"[^\n]*(FAILED|panicked)", log) is not None and "REPLAY-VIOLATION-REPRODUCED" in log
+                    o["replayed"] = bool(reproduced)
+                    o["replay_log"] = log[-1500:]
+                    o["replay_test_source"] = rp.PRELUDE + "\n" + srcs[o["id"]]
     for o in res.obligations:
         if o["status"] != "failed":
             continue
@@ -274,6 +296,7 @@ def finish(res, claim, t_start, extra_cov=None):
         rep = {"property": res.pid, "obligation": o["id"], "unit": o.get("unit"), "clause": o.get("text"),
                "backend": o.get("backend"), "verifier_output": o.get("detail"), "counterexample": cex,
                "replayed_on_real_code": o.get("replayed"), "replay_log": o.get("replay_log"),
+               "replay_test_source": o.get("replay_test_source"),
                "note": "replay with: ./check %s --replay %s" % (res.pid, fn)}
         with open(fn, "w") as f:
             json.dump(rep, f, indent=1)
